@@ -34,6 +34,12 @@ def make_cfg(rnd, job):
         rnd.shuffle(alt)
         overrides[n] = alt if rnd.random() < 0.5 else list(ids[:-1]) + ["other.py::x"]
     reports = [[rnd.choice([0, 0, 0, 0, 1, 2]) for _ in range(rnd.choice([1, 1, 3]))] for _ in range(k)]
+    if profile != "nocrash" and k and rnd.random() < 0.12:
+        # a report the controller cannot rebuild (outcome 3): the worker is written off for an undecodable message
+        i = rnd.randrange(k)
+        reports[i] = [3 if rnd.random() < 0.6 else x for x in reports[i]]
+        if 3 not in reports[i]:
+            reports[i][rnd.randrange(len(reports[i]))] = 3
     maxfail = rnd.choice([0, 0, 0, 1, 2]) if profile != "nocrash" else 0
     if profile == "nocrash":
         reports = [[rnd.choice([0, 0, 2]) for _ in r] for r in reports]
@@ -95,6 +101,23 @@ def steal_victim(sim):
     return int(node.gateway.id[2:])
 
 
+def early_collected(sim):
+    """live nodes whose collection the scheduler has registered while the initial collection phase is still open
+    (a death there must not count towards 'everybody has collected')"""
+    sched = getattr(sim.ds, "sched", None)
+    if sched is None:
+        return []
+    try:
+        if sched.collection_is_completed:
+            return []
+    except Exception:  # noqa: BLE001
+        return []
+    regs = getattr(sched, "node2collection", None)
+    if regs is None:
+        regs = getattr(sched, "registered_collections", {})
+    return [int(n.gateway.id[2:]) for n in regs]
+
+
 def run_online(job):
     rnd = random.Random(job["seed"])
     cfg = job.get("cfg") or make_cfg(rnd, job)
@@ -118,12 +141,18 @@ def run_online(job):
             if rnd.random() < 0.03:      # a label that may well be disabled
                 lab = rnd.choice([["main", rnd.randrange(4)], ["recvw", rnd.randrange(4)], ["ctl"],
                                   ["deliver", rnd.randrange(4)], ["recv", rnd.randrange(4)]])
-            elif ext_crash_p and ncrash < 3 and rnd.random() < ext_crash_p * (6 if steal_victim(sim) is not None else 1):
+            elif ext_crash_p and ncrash < 3 and rnd.random() < ext_crash_p * (6 if (steal_victim(sim) is not None or early_collected(sim)) else 1):
                 live = [n for n, w in sim.workers.items() if not w.dead and not w.exited]
                 if not live:
                     continue
                 v = steal_victim(sim)
-                lab = ["crash", v if (v in live and rnd.random() < 0.7) else rnd.choice(live)]
+                early = [n for n in early_collected(sim) if n in live]
+                if v in live and rnd.random() < 0.7:
+                    lab = ["crash", v]
+                elif early and rnd.random() < 0.7:
+                    lab = ["crash", rnd.choice(early)]
+                else:
+                    lab = ["crash", rnd.choice(live)]
                 ncrash += 1
             else:
                 if bias == "ctl-first" and ["ctl"] in acts and rnd.random() < 0.7:
